@@ -321,6 +321,10 @@ class Box:
             self.pos.x <= point.x <= self.pos.x + self.size.x
             and self.pos.y <= point.y <= self.pos.y + self.size.y
         ):
+            if source == self.center:
+                # Coming straight from the center, there is no edge
+                # direction; leave through the side facing the point.
+                return self.__vector_snap_closest(point)
             point = self.center
         direction = point - source
         edge = (source, point)
